@@ -340,3 +340,34 @@ Definition run_conc (lo : list (name * val)) (pa : list (name * sha))
   let s := run_sched valid_h sched (sys_init st oa (c warm_a) ob (c warm_b)) in
   OL [ores (res_of (s_a s)); ores (res_of (s_b s)); ostore (s_store s);
       ocache (tc (s_a s)); ocache (tc (s_b s))].
+
+(* ------------------------------------------- bzr -> local git push (C37) -- *)
+
+(* breezy/git/interrepo.py InterToLocalGitRepository.fetch_refs, the ref-update part:
+     old_refs = self._get_target_either_refs()      (read_ref of every existing key: the view [v0])
+     ... update_refs(old_refs); fetch_revs(...) ...  (anything may happen to the target meanwhile)
+     try: old_git_id = old_refs[name][0]
+     except KeyError: self.target_refs.add_if_new(name, gitid)
+     else: self.target_refs.set_if_equals(name, old_git_id, gitid) *)
+Definition push_op (v0 : name -> option val) (n : name) (new : sha) : op :=
+  match v0 n with
+  | Some o => OpSet n (Some o) new
+  | None => OpAdd n new
+  end.
+
+Fixpoint seq_final (valid : name -> bool) (ops : list op) (st : store) (pc : pcache) : store :=
+  match ops with
+  | [] => st
+  | o :: ops' => let '(st', t') := exec valid o st pc in seq_final valid ops' st' (tc t')
+  end.
+
+(* the pushing container took its snapshot through allkeys(), which loads its packed cache;
+   [between] = what another container does before the push writes *)
+Definition run_push (lo : list (name * val)) (pa : list (name * sha)) (warm_b : bool)
+           (n : name) (new : sha) (between : list op) : obs :=
+  let st := mk_store lo pa in
+  let cb := if warm_b then Some (packed st) else None in
+  let st1 := seq_final valid_h between st cb in
+  let '(st2, _) := exec valid_h (push_op (view st) n new) st1 (Some (packed st)) in
+  OL [OL (map (fun x => match x with (r, _, _) => ores r end) (exec_seq valid_h between st cb));
+      ostore st2].
